@@ -106,7 +106,7 @@ def gen_case(rng, tier):
     count = min(count, limit)
     return {'count': count, 'n': n, 'b': rng.choice([1, 2, 3, 10, 100, 1024, 2000, max(1, count), max(1, n)]),
             'rg': rng.choice([None, None, None, 1, 2, 7, 100, 500]), 'compression': rng.choice(CODECS),
-            'schema': rng.choice(['flat', 'flat', 'nested', 'nested', 'single_int', 'single_str', 'names']), 'via': rng.choice(['path', 'path', 'fileobj', 'open_obj']),
+            'schema': rng.choice(['flat', 'flat', 'nested', 'nested', 'single_int', 'single_str', 'names']), 'via': rng.choice(['path', 'path', 'fileobj', 'open_obj', 'pathlib']),
             'resub': rng.random() < 0.4, 'salt': rng.randint(0, 1000), 'dump_twice': rng.random() < 0.3,
             'perm': rng.random() < 0.25, 'no_rewind': rng.random() < 0.3}
 
@@ -173,10 +173,19 @@ def real(case):
         fd, path = tempfile.mkstemp(prefix='verif-c20-')
         os.close(fd)
         target = path
+        if case['via'] == 'pathlib':
+            import pathlib
+            target = pathlib.Path(path)       # a path given as os.PathLike, with an opener
+
+    handles = []
 
     def my_open(name, mode='rb', **kw):
+        # an opener that keeps track of what it handed out (the file is not finalised by reference counting): what is written
+        # reaches the file when the library closes / flushes the object it was given
         opened.append(mode)
-        return open(name, mode)
+        f = open(name, mode)
+        handles.append(f)
+        return f
 
     def read_now():
         if buf is not None:
@@ -192,7 +201,7 @@ def real(case):
 
     try:
         kw = {'batch_size': case['n'], 'row_group_size': case['rg'], 'compression': case['compression']}
-        if case['via'] == 'open_obj':
+        if case['via'] in ('open_obj', 'pathlib'):
             kw['open_obj'] = my_open
         dump = rx.from_(rows).pipe(rsparquet.dump_to_file(target, schema, **kw))
         if case.get('dump_twice') and buf is None:
@@ -213,11 +222,11 @@ def real(case):
             data = None
         if data is not None:
             lkw = {'batch_size': case['b']}
-            if case['via'] == 'open_obj':
+            if case['via'] in ('open_obj', 'pathlib'):
                 lkw['open_obj'] = my_open
             # a file object: a fresh one, or (no_rewind) the very object the dump wrote to, left where the writer left it —
             # a parquet reader addresses its file by absolute offsets
-            src = (buf if case.get('no_rewind') else io.BytesIO(data)) if buf is not None else path
+            src = (buf if case.get('no_rewind') else io.BytesIO(data)) if buf is not None else target
             obs = rsparquet.load_from_file(src, **lkw)
             loads = []
             for k in range(2 if case['resub'] else 1):
